@@ -153,9 +153,11 @@ func (e *Engine) runPath(fn *ssa.Function, spec PathSpec, solver *smt.Solver, ti
 	}
 	solver.Push()
 	defer func() {
-		for solver.Depth() > 0 {
-			solver.Pop()
-		}
+		defer func() {
+			for solver.Depth() > 0 {
+				solver.Pop()
+			}
+		}()
 		res.Decisions = ex.decisions
 		res.Steps = ex.steps
 		pending = ex.pending
@@ -313,6 +315,10 @@ func (ex *Exec) initGlobal(gl *ssa.Global, l *Loc) {
 		return
 	case "io.EOF":
 		l.V = ex.errIface(&ErrObj{Kind: "errors", Msg: "EOF"})
+		return
+	case "encoding/base64.RawURLEncoding", "encoding/base64.StdEncoding", "encoding/base64.URLEncoding", "encoding/base64.RawStdEncoding":
+		ex.nloc++
+		l.V = Ptr{&Loc{T: gl.Type().(*types.Pointer).Elem().(*types.Pointer).Elem(), ID: ex.nloc, V: &RngObj{}}}
 		return
 	case "io.ErrUnexpectedEOF":
 		l.V = ex.errIface(&ErrObj{Kind: "errors", Msg: "unexpected EOF"})
